@@ -187,6 +187,15 @@ def db_names(db):
 def monitor_one_node_per_location(run, where, inv, meta, hist, ii, rep):
     """C13 at whole-program level: whatever spelling the manifest, the command line or a command's report used, the log names each
     location once, under its canonical spelling"""
+    for g in inv.graphs:
+        gnames = [f["name"].encode("utf-8", "surrogateescape") for f in g.files]
+        for n in gnames:
+            if not lexically_canonical(n):
+                run.report_failure(None, "the loaded graph has a file node under the non-canonical spelling %r (a second node for the same location)" % n, where)
+                return
+        if len(set(gnames)) != len(gnames):
+            run.report_failure(None, "the loaded graph has two file nodes with one name", where)
+            return
     if not inv.db or not inv.db.startswith(b"n2db"):
         return
     names = db_names(inv.db)
